@@ -1775,11 +1775,33 @@ func streamC15(r *Rand, n int, o *Out) {
 
 // every ordered pair of setters on a pool of start URLs, with boundary values (a third of the pairs per quick run,
 // rotating with the seed); `check` names the per-state oracle to evaluate, `emit` receives every executed history
+// after a protocol change, re-assign every component's current text: the setter-only states (file + localhost,
+// file + "C|", special + empty host …) are exactly those on which "set it to what it is" is not a no-op
+func reassignAfterProtocolChange(emit func(h *Hist), check string, starts []string) {
+	for _, st := range starts {
+		for _, proto := range []string{"file", "http", "sc", "wss", "ftp:"} {
+			for s3 := 0; s3 < 9; s3++ {
+				h := &Hist{}
+				if check != "" {
+					h.Check = map[string]bool{check: true}
+				}
+				if k := h.ParsePkg(st); k >= 0 {
+					h.Set(k, 0, proto)
+					h.Set(k, s3, currentValue(h.urls[k], s3))
+					h.Set(k, 0, "https")
+				}
+				emit(h)
+			}
+		}
+	}
+}
+
 func setterPairs(r *Rand, n int, emit func(h *Hist), check string) {
 	starts := []string{"http://h/", "https://u:p@h:8/a/b?q#f", "file:///C:/x", "file://h/x", "sc://h/p", "sc:/p", "sc:opaque", "sc://", "ftp://h:21/", "ws://h", "sc:opaque ?q#f", "sc:/.//p", "http://[::1]/", "http://1.2.3.4:80/",
-		"sc://example.net:0/path", "https://h:0/p", "sc://u@h:0", "http://localhost/C|/x", "sc:   #f", "data:  ?q#f", "sc: ?q", "sc:a  b  #f", "sc://:pw@h/", "sc://h"}
+		"sc://example.net:0/path", "https://h:0/p", "sc://u@h:0", "http://localhost/C|/x", "http://localhost/dir/f", "http://LOCALHOST:80/c|/x", "sc:   #f", "data:  ?q#f", "sc: ?q", "sc:a  b  #f", "sc://:pw@h/", "sc://h"}
 	vals := [][]string{{"file", "http:", "sc", "wss", "1x", ""}, {"u", "", "é:@"}, {"p", "", "/:"}, {"h2:99", "", "[::1]", "h3/x", "1.2.3", "a b", "h:99999", "h:0"},
 		{"h2", "", "x:8", "0x7f.1", "xn--a", "localhost"}, {"80", "", "8080x", "65536", "443", "0", "a"}, {"/x/../y", "", "a b", "//x", "C|/"}, {"q=1", "", "?a b'", "#"}, {"f", "", "#g h", "`"}}
+	reassignAfterProtocolChange(emit, check, starts)
 	cnt := 0
 	for _, st := range starts {
 		for s1 := 0; s1 < 9; s1++ {
@@ -1795,6 +1817,9 @@ func setterPairs(r *Rand, n int, emit func(h *Hist), check string) {
 				if k := h.ParsePkg(st); k >= 0 {
 					h.Set(k, s1, vals[s1][(cnt/7)%len(vals[s1])])
 					h.Set(k, s2, vals[s2][(cnt/3)%len(vals[s2])])
+					// … then re-assign some component's current text (a no-op on parse results, not on setter-only states)
+					s3 := []int{4, 6, 3, 0, 7, 8, 5, 1, 2}[cnt%9]
+					h.Set(k, s3, currentValue(h.urls[k], s3))
 				}
 				emit(h)
 			}
